@@ -195,7 +195,7 @@ def explore(ob, known, seed=0, max_witness=2000):
         vdetail = ""
         if isinstance(user_exc, Violation) and str(user_exc.sig) not in known:
             try:
-                vdetail = str(user_exc.detail)[:500]
+                vdetail = deep_realize(str(user_exc.detail)[:500])  # (str() of a symbolic value is itself symbolic under tracing)
             except BaseException as e:  # noqa: B036 - CrossHair control-flow exceptions are BaseExceptions
                 vdetail = f"<detail unavailable: {type(e).__name__}>"
         with NoTracing():
@@ -208,7 +208,7 @@ def explore(ob, known, seed=0, max_witness=2000):
                     res["known_hit"][s] = res["known_hit"].get(s, 0) + 1
                 else:
                     oc = f"VIOLATION:{s}"
-                    res["cex"] = {"args": cargs, "source": "symbolic", "clause": str(user_exc.clause), "sig": s, "detail": vdetail}
+                    res["cex"] = {"args": cargs, "source": "symbolic", "clause": str(user_exc.clause), "sig": s, "detail": vdetail if type(vdetail) is str else repr(vdetail)}
             else:
                 s = f"unexpected-exception/{type(user_exc).__name__}"
                 if s in known:
